@@ -64,3 +64,17 @@ void hor_check(unsigned unique_key_mask);	/* post-run */
 int hor_present_count(void);			/* nodes added and not removed (call at quiescence) */
 int hor_is_present(int id);
 #endif
+
+/* ---- RCU list oracle (one mutually excluded updater at a time) ---- */
+#ifndef SCEN_ORACLE_LIST_H
+#define SCEN_ORACLE_LIST_H
+void lor_add(int id, int at_tail, uint64_t inv);	/* at return of the add */
+void lor_replace(int old_id, int new_id, uint64_t inv);
+void lor_del(int id, uint64_t inv);
+void lor_update_done(int added_id, int removed_id);	/* after the updater lock was released */
+int lor_trav_begin(void);
+void lor_trav_visit(int t, int id);
+void lor_trav_end(int t);
+void lor_check(void);
+int lor_live(void);
+#endif
